@@ -1159,3 +1159,151 @@ def lift_to_callers(repo, modname: str, q: str, fn: ast.AST, expr: ast.AST):
                 mapping[p_] = dfl[p_]
         out.append((cname, cmod, cmod.qual_of(call), call, _subst(cur, {p_: mapping[p_] for p_ in used})))
     return out
+
+
+# ---------------------------------------------------------------------------------------------------------------------
+# C12.c: a removing call is an obligation of every entry point that reaches it, and "the removed graph is empty" may be
+# established in the function that removes or in the functions that delegate the removal to it
+# ---------------------------------------------------------------------------------------------------------------------
+def _outer_function(mod, node: ast.AST):
+    """(qualified name, def) of the outermost function enclosing `node` (the node itself if it is one); (None, None) at module
+    or class level."""
+    best = None
+    for p in [node] + list(mod.parents(node)):
+        if isinstance(p, (ast.FunctionDef, ast.AsyncFunctionDef)):
+            best = p
+    if best is None:
+        return None, None
+    return mod.qual_of(best), best
+
+
+def helper_call_sites(repo, modname: str, q: str, fn: ast.AST):
+    """The call sites [(module name, module, call)] of `fn` when fn is a private helper all of whose call sites are known: a
+    module-level function or a method with a name of its own in the package (`_x`, not `__x__`), not decorated (staticmethod /
+    classmethod apart), referenced nowhere but as the callee of a call.  None for everything else: a public function, a method
+    that can be overridden or looked up by name, a function that is passed round - such a function is an entry point of its own."""
+    mod = repo.modules[modname]
+    if not isinstance(fn, (ast.FunctionDef, ast.AsyncFunctionDef)):
+        return None
+    name = fn.name
+    if not name.startswith("_") or (name.startswith("__") and name.endswith("__")):
+        return None
+    owner_q = q.rpartition(".")[0]
+    owner = mod.defs.get(owner_q) if owner_q else None
+    if owner_q and not isinstance(owner, ast.ClassDef):
+        return None
+    for d in fn.decorator_list:
+        if not (isinstance(d, ast.Name) and d.id in ("staticmethod", "classmethod") and owner is not None):
+            return None
+    n_defs = sum(1 for m in repo.modules.values() if name in m.text for d in m.defs.values()
+                 if isinstance(d, (ast.FunctionDef, ast.AsyncFunctionDef)) and d.name == name)
+    if n_defs != 1:
+        return None
+    calls, other = _references(repo, name, modname, owner is not None)
+    if other:
+        return None
+    return list(calls)
+
+
+def entry_points(repo, modname: str, q: str, fn: ast.AST) -> list[tuple[str, str, list[str]]]:
+    """The functions through which the code of `fn` is entered from outside: fn itself unless it is a private helper with known
+    call sites (`helper_call_sites`), else the entry points of the functions that call it (transitively; a helper nobody calls
+    stands for itself).  [(module name, qualified name or '<module>', call chain entry -> ... -> fn)], without duplicates."""
+    out: dict[tuple[str, str], list[str]] = {}
+    seen: set[tuple[str, str]] = set()
+
+    def walk(mn: str, qq: str, f: ast.AST, chain: list[str]) -> None:
+        if (mn, qq) in seen:
+            return
+        seen.add((mn, qq))
+        here = ["%s:%s" % (repo.modules[mn].rel, qq)] + chain
+        calls = helper_call_sites(repo, mn, qq, f) if f is not None else None
+        if not calls:
+            out.setdefault((mn, qq), here)
+            return
+        for cname, cmod, call in calls:
+            cq, cf = _outer_function(cmod, call)
+            if cf is None:
+                out.setdefault((cname, "<module>"), ["%s:<module>" % cmod.rel] + here)
+            else:
+                walk(cname, cq, cf, here)
+
+    walk(modname, q, fn, [])
+    return [(mn, qq, chain) for (mn, qq), chain in out.items()]
+
+
+def _is_len_of(e: ast.AST, target: str) -> bool:
+    return isinstance(e, ast.Call) and isinstance(e.func, ast.Name) and e.func.id == "len" and len(e.args) == 1 and not e.keywords \
+        and norm(e.args[0]) == target
+
+
+def _is_int(e: ast.AST, v: int) -> bool:
+    return isinstance(e, ast.Constant) and type(e.value) is int and e.value == v
+
+
+def emptiness_outcome(test: ast.AST, target: str):
+    """The outcomes of `test` that establish `len(target) == 0`: a subset of {True, False}.  Read through not / and / or; the
+    atoms are comparisons of len(target) with 0 or 1 in either order, and len(target) itself as a truth value."""
+    if isinstance(test, ast.UnaryOp) and isinstance(test.op, ast.Not):
+        return {not o for o in emptiness_outcome(test.operand, target)}
+    if isinstance(test, ast.BoolOp):
+        parts = [emptiness_outcome(v, target) for v in test.values]
+        want = isinstance(test.op, ast.And)  # `a and b` true: every conjunct true; `a or b` false: every disjunct false
+        return {want} if any(want in p for p in parts) else set()
+    if _is_len_of(test, target):
+        return {False}
+    if isinstance(test, ast.Compare) and len(test.ops) == 1:
+        l, op, r = test.left, test.ops[0], test.comparators[0]
+        if _is_len_of(r, target) and not _is_len_of(l, target):
+            flip = {ast.Lt: ast.Gt, ast.Gt: ast.Lt, ast.LtE: ast.GtE, ast.GtE: ast.LtE}
+            l, r, op = r, l, flip.get(type(op), type(op))()
+        if not _is_len_of(l, target):
+            return set()
+        if (isinstance(op, ast.Eq) and _is_int(r, 0)) or (isinstance(op, ast.Lt) and _is_int(r, 1)) or (isinstance(op, ast.LtE) and _is_int(r, 0)):
+            return {True}
+        if (isinstance(op, ast.NotEq) and _is_int(r, 0)) or (isinstance(op, ast.Gt) and _is_int(r, 0)) or (isinstance(op, ast.GtE) and _is_int(r, 1)):
+            return {False}
+    return set()
+
+
+def emptiness_guarded(fn: ast.AST, node: ast.AST, target: str) -> bool:
+    """`node` stands in the branch of an `if` (or conditional expression) of `fn` that is taken only when len(target) == 0."""
+    for n in own_nodes(fn):
+        if isinstance(n, (ast.If, ast.IfExp)):
+            oc = emptiness_outcome(n.test, target)
+            if not oc:
+                continue
+            body = n.body if isinstance(n.body, list) else [n.body]
+            orelse = n.orelse if isinstance(n.orelse, list) else [n.orelse]
+            if True in oc and any(node is x for s in body for x in ast.walk(s)):
+                return True
+            if False in oc and any(node is x for s in orelse for x in ast.walk(s)):
+                return True
+    return False
+
+
+def removal_of_empty(repo, modname: str, mod, fn: ast.AST, node: ast.AST, target_expr: ast.AST, depth: int = 3):
+    """Is the removal `node` (of the graph `target_expr`) in function `fn` done only when that graph is empty?  Either an emptiness
+    test of the same expression guards it in fn, or fn is a private helper with known call sites, the removed graph is a function of
+    its parameters, and at every call site the call is guarded by an emptiness test of what is passed (or the caller is such a
+    helper in turn).  Returns a sentence saying where the test is, or None."""
+    target = norm(target_expr)
+    inner = mod.defs.get(mod.qual_of(node))
+    if isinstance(inner, (ast.FunctionDef, ast.AsyncFunctionDef)) and emptiness_guarded(inner, node, target):
+        return "under an emptiness test of %s" % target
+    if depth <= 0 or inner is not fn:
+        return None
+    q = mod.qual_of(fn)
+    lifted = lift_to_callers(repo, modname, q, fn, target_expr)
+    if not lifted:
+        return None
+    where = []
+    for cname, cmod, cq, call, texpr in lifted:
+        cq_outer, cf = _outer_function(cmod, call)
+        if cf is None:
+            return None
+        r = removal_of_empty(repo, cname, cmod, cf, call, texpr, depth - 1)
+        if r is None:
+            return None
+        where.append("%s (%s)" % (cq_outer, r))
+    return "every caller of %s calls it %s" % (q, "; ".join(sorted(set(where))))
